@@ -47,7 +47,31 @@ func (d *Desc) Fill(v sx.V, dst reflect.Value) error {
 		dst.Set(p)
 		return nil
 	}
+	if d.Signed {
+		return fillSigned(v, dst)
+	}
+	if d.T == textCommentT {
+		a, err := argsOf(v, "struct", 2)
+		if err != nil {
+			return err
+		}
+		b, err := bitsBytes(a[1])
+		if err != nil {
+			return err
+		}
+		dst.SetString(string(b))
+		return nil
+	}
 	switch d.K {
+	case KSnake:
+		return d.fillSnake(v, dst)
+	case KLenBytes:
+		b, err := bitsBytes(v)
+		if err != nil {
+			return err
+		}
+		dst.SetString(string(b))
+		return nil
 	case KUint, KUnary:
 		a, err := argsOf(v, "n", 1)
 		if err != nil {
